@@ -83,7 +83,7 @@ def one(acc, framing, side, m, unit, tid, pid):
                       '%d messages delivered' % len(got), cfg)
         return
     d = got[0]
-    if type(d) is not type(ref_obj):
+    if type(d) is not type(o):          # "a message equal to the original": the original's class, not merely the decoder's choice
         acc.violation('C03/%s/%s/%s/deliver/class/%s' % (framing, side, cname, pc), wit, 'delivered ' + type(d).__name__, cfg)
         return
     try:
